@@ -13,9 +13,11 @@ pub fn absolute<T: AsRef<Path>>(path: T) -> Result<PathBuf, E> {
     for comp in path.components() {
         match comp {
             C::CurDir => (),
-            C::ParentDir => {
-                out.pop().ok_or(E::CannotBeExported(ERROR_MESSAGE))?;
-            }
+            C::ParentDir => match out.pop() {
+                // `..` must not climb above (or remove) the root
+                Some(C::RootDir) | None => return Err(E::CannotBeExported(ERROR_MESSAGE)),
+                Some(_) => (),
+            },
             comp => out.push(comp),
         }
     }
